@@ -26,6 +26,7 @@ pub fn c08(sc: &Scenario, recs: &[CallRecord], stats: &mut Stats) -> Vec<Violati
                 HOp::Reset => "reset",
                 HOp::SetRange(..) => "set_range",
                 HOp::SetRate(_) => "set_rate",
+                HOp::SetFlags(..) => "set_flags",
             })
             .collect();
         let last_before = prev_ops.last().copied().unwrap_or("none");
